@@ -73,6 +73,9 @@ func (ml MultiLineString) Similar(g Geom, tolerance float64) bool {
 	switch g.(type) {
 	case MultiLineString:
 		ml2 := g.(MultiLineString)
+		if len(ml) != len(ml2) {
+			return false
+		}
 		indices := make([]int, len(ml2))
 		for i := range ml2 {
 			indices[i] = i
@@ -108,6 +111,9 @@ func (mp MultiPolygon) Similar(g Geom, tolerance float64) bool {
 	switch g.(type) {
 	case MultiPolygon:
 		mp2 := g.(MultiPolygon)
+		if len(mp) != len(mp2) {
+			return false
+		}
 		indices := make([]int, len(mp2))
 		for i := range mp2 {
 			indices[i] = i
@@ -145,6 +151,9 @@ func (p Polygon) Similar(g Geom, tolerance float64) bool {
 	switch g.(type) {
 	case Polygon:
 		p2 := g.(Polygon)
+		if len(p) != len(p2) {
+			return false
+		}
 		indices := make([]int, len(p2))
 		for i := range p2 {
 			indices[i] = i
@@ -191,6 +200,9 @@ func (gc GeometryCollection) Similar(g Geom, tolerance float64) bool {
 	switch g.(type) {
 	case GeometryCollection:
 		gc2 := g.(GeometryCollection)
+		if len(gc) != len(gc2) {
+			return false
+		}
 		indices := make([]int, len(gc2))
 		for i := range gc2 {
 			indices[i] = i
